@@ -201,10 +201,36 @@ def _recv(fd):
     return pickle.loads(data)
 
 
+TEMPLATE = [None]  # which dedicated history template the last gen_history call used
+
+
 def gen_history(rng, variant, maxlen):
     n = rng.randrange(2, maxlen + 1)
     hist = []
     readers = [o for o in OBJECTS if all(isinstance(v, dict) and set(v) == {"init_args"} for v in o.values())]
+    TEMPLATE[0] = None
+    if rng.random() < 0.15:
+        TEMPLATE[0] = "help_then_readers"
+        # dedicated: a help / print step (which renders defaults, also those of the default config files), then only steps
+        # that read what the parser knows: a leftover of the rendering shows in the first of them that consults it
+        hist.append(("parse_args", rng.choice([["--help"], ["--model.help"], ["--model.help", "SubB"], ["--print_config"], ["--opt.help=SubA"], ["--cb.help=SubA"]])))
+        for _ in range(rng.randrange(2, 5)):
+            r = rng.random()
+            if r < 0.45:
+                op = rng.choice(["parse_object", "parse_string"])
+                obj = rng.choice(readers)
+                hist.append((op, obj if op == "parse_object" else json.dumps(obj), rng.random() < 0.6))
+            elif r < 0.6:
+                hist.append(("parse_args", ["--print_config"]))
+            elif r < 0.7:
+                hist.append(("get_defaults",))
+            elif r < 0.8:
+                hist.append(("dump", rng.choice(GOOD_ARGV[:12]), rng.choice([{}, {"skip_default": True}])))
+            elif r < 0.9:
+                hist.append(("parse_args", rng.choice(GOOD_ARGV)))
+            else:
+                hist.append(("parse_args", ["--help"]))
+        return hist
     for k in range(n):
         r = rng.random()
         # bias: failing / state-setting steps early, reading steps later
@@ -310,6 +336,8 @@ def case(ctx, i, rng):
     long_lived = factory()
     other = make_other(eoe)
     hist = gen_history(rng, variant, 6 if ctx.tier == "quick" else 12)
+    if TEMPLATE[0]:
+        ctx.count(f"st.history.{TEMPLATE[0]}" + (".default_config_file" if variant["dcf"] else ""))
     prev_kind = "start"
     shtab_reported = False
     ctx.evaluation(("c09", tuple(sorted(variant.items())), eoe, short(hist, 3000)))
